@@ -57,8 +57,9 @@ WITNESS = {"kind": "homog", "id": "witness-F-C08",
 
 # ------------------------------------------------------------------------------ generators
 def gen_homog(seed, i):
-    """water + 1..3 further linearly independent equilibria of the pool, constants moved by
-    +-3 decades, every species strictly positive (log-uniform 1e-5 .. 1e-1 M, water 55.5 M)."""
+    """water + 1..3 further linearly independent equilibria of the pool (+ 0..2 spectator ions) such
+    that reactions + element/charge balances determine the state (rank S + rank B == ns), constants
+    moved by +-3 decades, every species strictly positive (log-uniform 1e-5 .. 1e-1 M, water 55.5 M)."""
     r = P.case_rng("C08-homog", seed, i)
     others = [p for p in P.POOL if p[0] not in ("water", "water2")]
     while True:
@@ -69,11 +70,15 @@ def gen_homog(seed, i):
             for n in list(re_) + list(pr):
                 if n not in names:
                     names.append(n)
+        if r.random() < 0.3:
+            names += r.sample(P.SPECTATORS, r.choice([1, 2]))
         S = [P.net_stoich(p[1], p[2], names) for p in picks]
-        if P.rank(S) == len(S):
+        # well-posed: independent reactions, and the element/charge balances are ALL the invariants of the
+        # reactions (rank S + rank B == number of species).  Otherwise chempy's formulation (reactions +
+        # element balances) is under-determined: it then either refuses (ValueError "Under-determined
+        # system", e.g. NO3- next to NH3) or has a singular Jacobian (e.g. phosphoric steps 1 and 3 without 2).
+        if P.rank(S) == len(S) and len(S) + P.rank(P.comp_matrix(names)[0]) == len(names):
             break
-    if r.random() < 0.3:
-        names += r.sample(P.SPECTATORS, r.choice([1, 2]))
     r.shuffle(names)
     r.shuffle(picks)
     K = [10 ** (p[3] + r.uniform(-3, 3)) for p in picks]
@@ -213,9 +218,11 @@ def run_root_case(case):
     out = []
     chains = CHAINS
     with np.errstate(all="ignore"):
+        es = None
         for chain in chains:
             try:
-                es = P.build_eqsys(case["names"], _rxns_of(case), case["K"])
+                if es is None:
+                    es = P.build_eqsys(case["names"], _rxns_of(case), case["K"])
                 x, success, sane = _call(es, case, chain)
             except Exception as e:  # chempy raising on a valid input is a violation
                 out.append({"chain": chain, "claimed": False, "holds": False, "exc": True,
@@ -310,7 +317,7 @@ def run(tier, seed):
     soundness = {
         "name": "root_soundness",
         "rule": "fixed witness of DESIGN section 9 (F-C08) + seeded homogeneous systems (water + 1..3 independent "
-                "equilibria from a pool of %d acid/base/complexation equilibria, constants *10^U(-3,3), every species "
+                "equilibria from a pool of %d acid/base/complexation equilibria, rank S + rank B == ns, constants *10^U(-3,3), every species "
                 "log-uniform 1e-5..1e-1 M, water 55.5 M, 0..2 spectator ions) + single-salt precipitation systems "
                 "(5 salts, Ksp*10^U(-1.5,1.5), amounts 1e-3..3 M, with/without initial solid, default options and the "
                 "options of the repository's precipitation test); each case through root() default, NumSys=(Log,), "
